@@ -4,7 +4,7 @@ from vstatic import terms as T
 from vstatic.terms import sym, Term, Atom, lift, pretty, TRUE, FALSE, NONE
 from vstatic.effects import summaries
 from vstatic.argbind import resolve_callee
-from .common import who_writes, INT_ATTRS, REAL_ATTRS
+from .common import who_writes, INT_ATTRS, REAL_ATTRS, leaf_mutations, fold_new_helpers
 
 FR = 'frame.Frame.'
 
@@ -66,14 +66,13 @@ def run(ctx):
     # ---- D1 write set
     ctx.clause = 'D1'
     other = []
-    for (kind, path), hits in s['mutates'].items():
-        for node, how in hits:
-            leaf = path.split('.')[-1]
-            if how == 'augmented assignment' and (leaf in INT_ATTRS or leaf in REAL_ATTRS):
-                continue      # `x = self.n; x += 1` rebinds a local number
-            if path == 'self.data' and how in ('item aug-store',):
-                continue
-            other.append((path, how, ast.unparse(node)[:80], node))
+    for kind, path, how, node, owner in leaf_mutations(prog, S, fi):
+        leaf = path.split('.')[-1]
+        if how == 'augmented assignment' and (leaf in INT_ATTRS or leaf in REAL_ATTRS):
+            continue      # `x = self.n; x += 1` rebinds a local number
+        if path == 'self.data' and how in ('item aug-store',):
+            continue
+        other.append((path, how, ast.unparse(node)[:80], node))
     ctx.ob('EFFECTS', 'add_signal writes nothing but an in-place addition into self.data[...]', fi, not other,
            {'other_writes': [o[:3] for o in other]}, node=(other[0][3] if other else fi.node),
            construct=(other[0][2] if other else 'write set of add_signal'))
@@ -178,13 +177,14 @@ def run(ctx):
         extra = sorted(set(w) - allowed)
         ctx.ob('WHOWRITES', f'{attr} is written only by the noise routines', 'frame.Frame', not extra,
                {'writers': sorted(w), 'unexpected': extra}, node=(w[extra[0]] if extra else None), construct=f'.{attr} writers')
-    callers = []
+    callers = {}
     for f2 in prog.functions.values():
         if isinstance(f2.node, ast.Lambda):
             continue
         for n in ast.walk(f2.node):
             if isinstance(n, ast.Call) and isinstance(n.func, ast.Attribute) and n.func.attr == '_update_noise_frame_stats':
-                callers.append(f2.short)
+                callers.setdefault(f2.short, n)
+    callers = list(fold_new_helpers(ctx, callers))          # a helper extracted from a noise routine counts as that routine
     ok_callers = {FR + '__init__', FR + 'add_noise', FR + 'add_noise_from_obs', 'normalize.sigma_clip_norm'}
     extra = sorted(set(callers) - ok_callers)
     ctx.ob('WHOWRITES', 'the noise re-estimate is triggered only by construction, the noise routines and normalisation of a copy',
